@@ -1,6 +1,8 @@
 \* the child loop of baseStage.execute keeps the result of the LAST child ("last error wins"): must violate
 CONSTANTS
   MCPlansFan <- MCPlansFanQuick
+  SuccessOnlyAtEnd = TRUE
+  RegisterAtomic = TRUE
   KeepFirstError = TRUE
   RecoverPerStage = TRUE
   FirstErrorWins = FALSE
